@@ -178,10 +178,8 @@ class TxnModel:
         owner = self._name(owner)
         tk = (rdtype, covers)
         if not rdatas:
-            # adding no records changes nothing; replacing by nothing is not specified
-            if replace:
-                raise ModelError("unspecified", "replace() with an empty rdataset")
-            return
+            # an empty rdataset is refused (ValueError), like an empty RRset
+            raise ModelError("ValueError", "empty rdataset")
         if rdtype in SINGLETONS and len(rdatas) > 1:
             rdatas = rdatas[-1:]
         existing = self.content.get(owner, {}).get(tk)
@@ -235,9 +233,13 @@ class TxnModel:
         if rdatas and rdclass is not None and rdclass != self.zone.rdclass:
             raise ModelError("ValueError", "wrong class")
         owner = self._name(owner)
-        if not rdatas:
-            return
         tk = (rdtype, covers)
+        if not rdatas:
+            # deleting nothing: no content change; an existing rdataset is stored back as it is,
+            # which may count as a write for changed()
+            if self.content.get(owner, {}).get(tk) is not None:
+                self._after_write()
+            return
         existing = self.content.get(owner, {}).get(tk)
         if existing is None:
             if exact:
